@@ -31,10 +31,12 @@ package client
 //@   modifies nothing
 //@ interface Session.SavePacket(dir session.Direction, pkt packet.Generic) (err error)
 //@   requires [pkt] pkt != nil
+//@   requires [distinct-object] !storedobj[payload(pkt)]
+//@   ensures [kept-by-reference] storedobj == old(storedobj)[payload(pkt) := true]
 //@   ensures [saved] err == nil ==> saved[dir][idOf(pkt)] == typecode(pkt)
 //@   ensures [others] err == nil ==> forall d int, i int {saved[d][i]} :: d != dir || i != idOf(pkt) ==> saved[d][i] == old(saved[d][i])
 //@   ensures [fail] err != nil ==> saved == old(saved)
-//@   modifies saved
+//@   modifies saved, storedobj
 //@ interface Session.LookupPacket(dir session.Direction, id packet.ID) (pkt packet.Generic, err error)
 //@   ensures [found] err == nil ==> typecode(pkt) == saved[dir][id] && (pkt == nil <==> saved[dir][id] == 0)
 //@   ensures [obj] err == nil && pkt != nil ==> as(pkt, *packet.Publish) != nil && idOf(pkt) == id
@@ -137,18 +139,19 @@ package client
 //@   ensures [no-send] nsentall == old(nsentall) && nsent == old(nsent)
 //@   ensures [started] tstarted == old(tstarted)
 //@   ensures [unlocked] held == old(held)
-//@   modifies c.state, nclose, saved, nreset, c.futureStore.store, any(future.Future.result), any(future.Future.done), fclosed, held, ncallback, cbmsg, cbfail
+//@   modifies c.state, nclose, saved, nreset, c.futureStore.store, any(future.Future.result), any(future.Future.done), fclosed, held, ncallback, cbmsg, cbfail, storedobj
 //@ func (c *Client) die$1()
 //@   requires [captured] *c != nil && client_inv(*c)
 //@   ensures [err] old(*err) != nil ==> *err != nil
 //@   ensures [no-send] nsentall == old(nsentall) && nsent == old(nsent)
 //@   ensures [started] tstarted == old(tstarted)
 //@   ensures [unlocked] held == old(held)
-//@   modifies *err, (*c).state, nclose, saved, nreset, (*c).futureStore.store, any(future.Future.result), any(future.Future.done), fclosed, held, ncallback, cbmsg, cbfail
+//@   modifies *err, (*c).state, nclose, saved, nreset, (*c).futureStore.store, any(future.Future.result), any(future.Future.done), fclosed, held, ncallback, cbmsg, cbfail, storedobj
 //
 //@ func (c *Client) processPublish(publish *packet.Publish) (err error)
 //@   requires [client] client_inv(c)
 //@   requires [pkt] publish != nil && publish.Message.QOS <= 2 && (publish.Message.QOS > 0 ==> publish.ID != 0)
+//@   requires [unstored] !storedobj[publish]
 //@   requires [no-reject-yet] !cbfail
 //@   ensures [qos1-ack-after-callback] err == nil && publish.Message.QOS == 1 ==> nsent[4] == old(nsent[4]) + 1 && lastid[4] == publish.ID && !cbfail && (c.Callback != nil ==> ncallback == old(ncallback) + 1 && cbmsg == publish.Message)
 //@   ensures [qos2-recorded-then-rec] err == nil && publish.Message.QOS == 2 ==> saved[0][publish.ID] == 3 && nsent[5] == old(nsent[5]) + 1 && lastid[5] == publish.ID && !cbfail
@@ -231,7 +234,7 @@ package client
 //@   ensures [done-mono] c.connectFuture == old(c.connectFuture) && (c.connectFuture != nil && old(c.connectFuture.done) ==> c.connectFuture.done)
 //@   ensures [unlocked] held == old(held)
 //@   ensures [started] tstarted == old(tstarted)
-//@   modifies c.state, nclose, saved, nreset, c.futureStore.store, any(future.Future.result), any(future.Future.done), fclosed, held
+//@   modifies c.state, nclose, saved, nreset, c.futureStore.store, any(future.Future.result), any(future.Future.done), fclosed, held, storedobj
 //
 // PublishMessage: a QoS>0 publish is recorded before it is sent and its
 // future is still open when the call returns; a QoS 0 publish is complete
